@@ -18,6 +18,9 @@ func init() {
 			"One consumer goroutine + FIFO channels + synchronous sends give serial, exactly-once, per-sender-ordered processing for every schedule. Not decided: uniqueness of time.Now() ids; liveness; the close race (C15).",
 		Trusted: append([]string{"Go channels deliver the values of one sender in send order", "a caller-supplied mailbox channel (NewByCh/NewByOptions) is not received from by the caller"}, commonTrusted...),
 		Run:     runC12,
+		Relies: []Dep{
+			{Prop: "C13", Rule: "R1", Keys: []string{"AskDef.AskChannel"}, Floor: 1, Why: "an ask is a message of its sender: AskChannel must hand it to the mailbox synchronously to keep per-sender order"},
+		},
 	})
 }
 
